@@ -45,11 +45,13 @@ func decodeJSON(b []byte) any {
 func asMap(x any) map[string]any { m, _ := x.(map[string]any); return m }
 
 type schemaConv struct {
-	comps   map[string]any // component / definition schemas by name
-	shared  bool           // a $ref pointed at a component named after another type
-	top     string         // expected name of the component the top-level $ref points at ("" = unknown)
-	differs bool           // inside a shared component, a documented keyword is not the attribute's own
-	hops    int            // $ref followed so far (a cyclic document must not hang the harness)
+	comps     map[string]any // component / definition schemas by name
+	shared    bool           // a $ref pointed at a component named after another type
+	top       string         // expected name of the component the top-level $ref points at ("" = unknown)
+	differs   bool           // inside a shared component, a documented keyword is not the attribute's own
+	hops      int            // $ref followed so far (a cyclic document must not hang the harness)
+	inRef     int            // number of $ref components entered
+	aliasDrop bool           // inside a named type, an alias-typed attribute carries its own validation (not documented there)
 }
 
 var trailingDigits = regexp.MustCompile(`[0-9]+$`)
@@ -147,10 +149,21 @@ func (sc *schemaConv) term(js any, a *expr.AttributeExpr, depth int, transparent
 		if depth == 0 {
 			return "(SRef 0)"
 		}
-		return sc.term(comp, inner, depth-1, false)
+		sc.inRef++
+		t := sc.term(comp, inner, depth-1, false)
+		sc.inRef--
+		return t
 	}
 	if sc.shared && a != nil && kwDiffers(m, a) {
 		sc.differs = true
+	}
+	if sc.inRef > 0 && a != nil && a.Validation != nil && !sc.shared {
+		// the transport types hold alias-typed attributes as primitives carrying the merged validation
+		_, isPrim := a.Type.(expr.Primitive)
+		ut, isUT := a.Type.(expr.UserType)
+		if (isPrim || (isUT && expr.IsAlias(ut))) && len(a.Validation.Values) > 0 && kwDiffers(m, a) {
+			sc.aliasDrop = true
+		}
 	}
 	jt := "JAny"
 	switch m["type"] {
@@ -459,6 +472,11 @@ func schemaCases(res *vh.Result, items []*built) []string {
 				}
 				sc := &schemaConv{comps: comps, top: e.BodyType}
 				real3 := sc.term(js, e.Att, schemaDepth, top)
+				if sc.aliasDrop {
+					failSig(res, "alias-attribute-validation-undocumented-in-user-type", "openapi3.json documents "+name+" "+tag+": inside a named user type, the validation declared on an alias-typed attribute is left out (only the alias type's own validation is written)",
+						map[string]any{"design": it.bu.Design, "endpoint": name, "element": tag})
+					return
+				}
 				if sc.shared && sc.differs {
 					// the attribute is documented by the schema of another, structurally equal type
 					it.ex.shared[name] = true
